@@ -10,6 +10,7 @@ import PrqlModel.Drv.Lex
 import PrqlModel.Drv.Take
 import PrqlModel.Drv.Json
 import PrqlModel.Drv.Lit
+import PrqlModel.Drv.Names
 namespace Drv
 
 def handlers : List (List String → Option String) := [
@@ -18,7 +19,8 @@ def handlers : List (List String → Option String) := [
   Drv.Lex.handle,
   Drv.Take.handle,
   Drv.Json.handle,
-  Drv.Lit.handle
+  Drv.Lit.handle,
+  Drv.Names.handle
 ]
 
 def handle (fields : List String) : String :=
